@@ -11,6 +11,7 @@ var (
 	ErrCondHlpNotFound = errors.New("condition helper not found")
 
 	ErrTplNotFound = errors.New("template not found")
+	ErrIncDepth    = errors.New("include depth limit exceeded")
 	ErrInterrupt   = errors.New("tpl processing interrupted")
 	ErrModNoArgs   = errors.New("empty arguments list")
 	ErrModPoorArgs = errors.New("arguments list is too small")
